@@ -442,8 +442,29 @@ def mutated_between(ctx, d1, bb, places):
     ((root, path) pairs; a write to a prefix or an extension of a path counts): an assignment
     through a projection, or a call that is handed a `&mut` into it"""
     body = ctx.body
-    fwd = reach_strict(body, d1) | {d1}
-    region = {x for x in fwd if x == bb or bb in reach_strict(body, x)}
+    # blocks on a path d1 -> bb that does not come back to d1 (coming back re-evaluates the branch)
+    fwd = set()
+    st_ = [s_ for s_ in body.succs(d1) if s_ != d1]
+    while st_:
+        x = st_.pop()
+        if x in fwd or x == d1:
+            continue
+        fwd.add(x)
+        st_.extend(body.succs(x))
+
+    def reaches_bb(x):
+        seen = set()
+        stack = [x]
+        while stack:
+            y = stack.pop()
+            if y == bb:
+                return True
+            if y in seen or y == d1:
+                continue
+            seen.add(y)
+            stack.extend(body.succs(y))
+        return False
+    region = {x for x in fwd if x == bb or reaches_bb(x)} | {d1}
     for x in region:
         for st in body.blocks[x]["stmts"]:
             if st["k"] == "assign" and st["place"]["p"]:
